@@ -10,6 +10,7 @@ import (
 	"encoding/binary"
 	"fmt"
 	"net"
+	"os"
 	"syscall"
 	"time"
 
@@ -44,7 +45,7 @@ func rawSupported() error {
 // getRig starts (once per configuration) the real mirror goroutine and the listeners.
 // thirdParty is this worker process's own loopback address (127.0.<shard+1>.1): the UDP listener and
 // the raw capture are bound to it, so the kernel delivers only this process's mirrored datagrams.
-func thirdParty() net.IP { return net.IPv4(127, 0, byte(mck.Shard+1), 1) }
+func thirdParty() net.IP { a := mck.LoopAddr(); return net.IPv4(a[0], a[1], a[2], a[3]) }
 
 func getRig(isSFlow bool, udpSize, port int) (*mirrorRig, error) {
 	key := fmt.Sprint(isSFlow, udpSize, port)
@@ -199,8 +200,9 @@ func mirrorSpace(tier string) mck.Space {
 		port := cf.port
 		rig, err := getRig(cf.sflow, cf.size, port)
 		if err != nil {
-			c.Violation("mirror:rig", err.Error(), desc())
-			return
+			// the harness could not set up its sockets: a machinery error, never a verdict
+			fmt.Fprintln(os.Stderr, "mirror rig:", err)
+			os.Exit(3)
 		}
 		// drain anything left over
 		tmp := make([]byte, 65536)
